@@ -123,7 +123,8 @@ def run(ctx):
                          "O": {"o": "<O>"}, "U": {"u": "<U>"},
                          "F": {"ext": {5: "<F1>", 6: "<F2>"}},
                          "X": {7: "<X>"}})
-        g = Abs(gfacls, label="gfa", _version=version, _records=recs)
+        g = Abs(gfacls, label="gfa", _version=version, _records=recs,
+                _line_queue=[], _version_guess="gfa2")
         out = eval_function(repo, f_lines, [g], hooks=LH(repo))
         if version == "gfa1":
             want = ["<#>", "<H1>", "<H2>", "<S>", "<L>", "<C>", "<P>"]
